@@ -28,16 +28,20 @@ theorem no_panic_before_1000 (c : Conn) (e : RErr) (he : c.r.readErr = some e) (
   obtain ⟨c', h, _⟩ := nextReader_sticky c e he hn
   exact ⟨c', h⟩
 
-/-- header reads are bounded: whatever length a header claims, at most the bytes asked for (≤ 125 for
-    control payloads, ≤ 8 for lengths) are taken from the source, and a short source is an error,
-    not a wait -/
+/-- header reads are bounded: a read of n bytes (n is at most 125 for control payloads, 8 for lengths, 4 for
+    keys, 2 for the header) delivers at most n bytes, consumes exactly what it delivers, and on a source
+    with fewer than n bytes left it ends with the source's error instead of waiting -/
 theorem header_read_bounded (b : Buf) (h : WF b) (n : Nat) (hn : n ≤ b.size) :
-    (b.take n).1.length ≤ max n b.pending.length ∧
+    (b.take n).1.length ≤ n ∧
+    (b.take n).1 ++ (b.take n).2.2.pending = b.pending ∧
     (b.pending.length < n → (b.take n).2.1 = some (mapEOF b.t.term)) := by
-  constructor
+  refine ⟨?_, ?_, ?_⟩
   · by_cases hp : n ≤ b.pending.length
     · rw [(take_ok b h n hn hp).1]; simp [List.length_take]; omega
     · rw [(take_short b h n hn (by omega)).1]; omega
+  · by_cases hp : n ≤ b.pending.length
+    · rw [(take_ok b h n hn hp).1, (take_ok b h n hn hp).2.2.1]; exact List.take_append_drop n b.pending
+    · rw [(take_short b h n hn (by omega)).1, (take_short b h n hn (by omega)).2.2.1]; simp
   · intro hp; exact (take_short b h n hn hp).2.1
 
 /-- skipping a frame whose header claims any length consumes what is there and ends with an error
@@ -105,7 +109,8 @@ def witBuf_wf : WF witBuf := ⟨by decide, by decide, by decide, (by intro e h; 
 
 /-- non-vacuity of `header_read_bounded`: the 8-byte extended length is asked for after the 2 header
     bytes; 6 pending bytes < 8 + 2 -/
-example : (witBuf.take 10).1.length ≤ max 10 witBuf.pending.length ∧
+example : (witBuf.take 10).1.length ≤ 10 ∧
+    (witBuf.take 10).1 ++ (witBuf.take 10).2.2.pending = witBuf.pending ∧
     (witBuf.pending.length < 10 → (witBuf.take 10).2.1 = some (mapEOF witBuf.t.term)) :=
   header_read_bounded witBuf witBuf_wf 10 (by decide)
 
